@@ -26,9 +26,9 @@ D_INF = 0.0501          # minimal Euclidean distance of ideal points from (1,0,.
 
 RULE = ("cases: the geodesic's two ideal endpoints are drawn first (n=2: two angles in "
         "[0.05, 2pi-0.05] at least 0.05 apart; n=3,4: unit vectors at distance >= 0.05 from "
-        "(1,0,..) and >= 0.05 from each other), then the segment endpoints on the Klein chord "
-        "at hyperbolic parameters |t| <= 3, |t_p - t_q| >= 1e-3, each endpoint interior or "
-        "ideal; free interior pairs (Klein radius <= 0.999, separation >= 1e-3) for the "
+        "(1,0,..) and >= 0.05 from each other), then the segment endpoints p = (1-s)u + s v "
+        "on the Klein chord, s drawn uniformly in hyperbolic arclength (|t| <= 3) or uniformly "
+        "in [s(-3), s(3)], |s_p - s_q| >= 1e-3, each endpoint interior or ideal; free interior pairs (Klein radius <= 0.999, separation >= 1e-3) for the "
         "Poincare-only clauses; chords at offsets 0, 1e-12 .. 1e-2 from the origin (straight "
         "line limit); horospheres = ideal direction x interior reference point, n = 2..4; "
         "horocyclic arcs = two points of a Euclidean circle of radius 0.05..0.95 tangent to "
@@ -44,9 +44,17 @@ ASSUMPTIONS = [
     "point at infinity (a geodesic ending there is a vertical line and has no circle); "
     "Hyperplane objects choose their own ideal basis, so their half-space clauses are "
     "evaluated only when that basis stays at distance >= 0.05 from infinity (counted)",
-    "segment endpoints at hyperbolic distance >= 1e-3 and Klein radius <= 1 - 3e-6; "
-    "tolerances: Poincare 1e-6..1e-5 (1+r); half-space scaled by the squared size of the "
-    "half-space coordinates involved (the library reaches half-space through sqrt(1-|x|^2))",
+    "segment endpoints differ by >= 1e-3 in the chord parameter (the library extrapolates "
+    "from the endpoints to the ideal endpoints; factor chord/|p-q| <= 1000); tolerances: "
+    "1e-5 (1+r) + 1e-8 * that factor, in the half-space times the squared size of the "
+    "half-space coordinates involved (the library reaches half-space through "
+    "sqrt(1-|x|^2)); orthogonality 1e-6 (1+r^2) in Poincare, centre height 1e-4 (1+r) in "
+    "half-space",
+    "the order of the two reported angles (which arc) is asserted only when the positional "
+    "uncertainty granted by these tolerances is below 5% of the arc's chord and, in the "
+    "half-space, below 20% of the height of interior endpoints (otherwise counted as "
+    "arc-order-unresolved; about 10% of the units, all with ideal endpoints within ~0.15 of "
+    "the point at infinity or nearly coincident endpoints)",
     "boundary_sphere_parameters is evaluated for hyperplanes only (k = n ideal points): for "
     "lower-dimensional subspaces the library refuses with GeometryError (a (k-1)-sphere "
     "through k points of R^(n-1) is not unique)",
